@@ -29,7 +29,7 @@ ASSUMPTIONS = [
     'an injected fault relaxes the oracle for the faulted statement only',
     'pre-emption happens at harness sites (quick) or Python line boundaries inside beanquery (thorough); C code is atomic under the GIL',
 ]
-PROBES = ['switch_between_balance_refs', 'switch_between_balance_refs_other_balance_inflight', 'two_aggregates_interleaved',
+PROBES = ['switch_after_finalize_same_statement_other_thread', 'switch_inside_compilation', 'switch_between_balance_refs', 'switch_between_balance_refs_other_balance_inflight', 'two_aggregates_interleaved',
           'shared_connection_overlap', 'fault_in_one_thread_others_running', 'subquery_scan_interleaved',
           'three_threads_all_inflight', 'from_clause_overlap']
 
@@ -66,6 +66,17 @@ POOL = [
     ('SELECT {0} - verif_yield(a, 26) AS x, {1} AS s FROM #t0 WHERE {2} - a > 0', ['int', 'str', 'int'], ()),
     ('SELECT a, a - {0} AS x FROM #t0 WHERE a > {1}', ['int', 'int'], ()),
     ('SELECT nosuch FROM #t0', [], ('bad',)),
+    # yield sites *after* a group has been finalised, before its aggregate values are read
+    ('SELECT account, verif_yield(sum(number), 30) AS s, count(number) AS n GROUP BY account', [], ('agg', 'postfinal')),
+    ('SELECT account, verif_yield(count(number), 31) AS n, sum(position) AS s, first(date) AS f, last(narration) AS l GROUP BY account',
+     [], ('agg', 'postfinal')),
+    ('SELECT e, verif_yield(count(a), 32) AS n, sum(b) AS s FROM #t0 GROUP BY e HAVING verif_yield(count(a), 33) > {0}', ['int'], ('agg', 'postfinal')),
+    # yield sites in the middle of a compilation (pure function of constants: called by constant folding)
+    ('SELECT verif_cyield({0}, 40) AS g, {1} AS v, a FROM #t0 WHERE a > verif_cyield({2}, 41)', ['int', 'str', 'int'], ('compile',)),
+    ('SELECT account, {0} AS v, number FROM verif_cyield(year, 42) >= {1} WHERE verif_cyield({2}, 43) < number', ['str', 'year', 'dec'],
+     ('compile', 'from')),
+    ('SELECT verif_cyield({0}, 44) AS k, x FROM (SELECT a AS x FROM #t0 WHERE a > verif_cyield({1}, 45)) WHERE x < {2}', ['int', 'int', 'int'],
+     ('compile', 'subq')),
 ]
 
 
@@ -79,7 +90,7 @@ def generate(rng, tier, run):
             ledgers.append(world.gen_ledger(rng, n_txn=rng.randint(2, 6)))
     t0 = world.gen_table(rng, 't0', nrows=rng.randint(1, 7), cols=T0_COLS, nullable=0.1)
     # swarm: weight statement families per run
-    fam = {'bal2': rng.choice([0.5, 2, 4]), 'bal1': rng.choice([0.5, 1, 3]), 'agg': rng.choice([0.5, 1, 2]),
+    fam = {'postfinal': rng.choice([0.5, 2, 4]), 'compile': rng.choice([0.5, 1, 3]), 'bal2': rng.choice([0.5, 2, 4]), 'bal1': rng.choice([0.5, 1, 3]), 'agg': rng.choice([0.5, 1, 2]),
            'subq': rng.choice([0.3, 1, 2]), 'from': rng.choice([0.3, 1]), 'fault': 0.6, 'bad': 0.2}
 
     def weight(tags):
@@ -140,6 +151,7 @@ class Sim(sched.ThreadSim):
     def __init__(self, *a, **kw):
         super().__init__(*a, **kw)
         self.inflight = [None] * self.n      # tags of the statement each thread is executing
+        self.stmt_of = [None] * self.n       # text of that statement
         self.overlap = False
         self.conn_of = [None] * self.n
 
@@ -160,6 +172,12 @@ class Sim(sched.ThreadSim):
                 self.probes['from_clause_overlap'] += 1
             if self.armed[me] is not None or any(self.armed[t] is not None for t in other_in):
                 self.probes['fault_in_one_thread_others_running'] += 1
+        if site[0] == 'expr' and isinstance(site[1], int) and 30 <= site[1] <= 33 and mine is not None \
+                and any(self.stmt_of[t] is not None and self.stmt_of[t] == self.stmt_of[me] and self.conn_of[t] is self.conn_of[me]
+                        for t in other_in):
+            self.probes['switch_after_finalize_same_statement_other_thread'] += 1
+        if site[0] == 'expr' and isinstance(site[1], int) and 40 <= site[1] <= 45:
+            self.probes['switch_inside_compilation'] += 1
         if site[0] == 'expr' and isinstance(site[1], int) and site[1] >= 100:
             self.probes['switch_between_balance_refs'] += 1
             if any(self.inflight[t] and ('bal1' in self.inflight[t] or 'bal2' in self.inflight[t]) for t in other_in):
@@ -235,10 +253,12 @@ def execute(case, keep_log=False):
                     except Exception:
                         arg = text
                     S.inflight[tid] = st['tags'] or ['plain']
+                    S.stmt_of[tid] = text
                     S.arm(tid, op.get('fault'))
                     got = outcome(conn, arg, params)
                     fired = S.disarm(tid)
                     S.inflight[tid] = None
+                    S.stmt_of[tid] = None
                     results[tid][oi] = (got, fired)
                     log.add('done', tid, oi, got[0], got[1] if got[0] == 'err' else core.digest(got)[:12], fired)
                     S.yield_point(('op', 'end'))
